@@ -86,7 +86,9 @@ def run(ctx, rep):
     regs = [(n, c) for n, c in node_calls(cfg, "add_trading_control")]
     names = [utext(c.args[0]) for n, c in sorted(regs, key=lambda x: x[1].lineno)]
     uncond = all(not cfg.guards(n.id) for n, c in regs)
-    rep.check(names == ["OrderValidation", "MarketValidation", "StrategyExposure"] and uncond, "R3",
+    need = ["OrderValidation", "MarketValidation", "StrategyExposure"]
+    have = [n for n in names if n in need]
+    rep.check(have == need and uncond, "R3",
               key(init, None, "default trading controls registered unconditionally, validation before exposure"), init,
               None, str(names))
     atc = prog.own_method("BaseFlumine", "add_trading_control")
